@@ -1679,6 +1679,13 @@ pub fn step<const N: usize, P: Pad>(
         drop_holder(&mut sh);
     }
     out.events.extend(flush_events(ctx, op.name(), N, lay, fkind));
+    if matches!(op, Op::Drain(_, _, End::Drop)) && fkind.is_none() && !out.events.is_empty() {
+        ctx.violation(
+            "C09",
+            sig(op, N, lay, &format!("ledger:{}", out.events[0])),
+            format!("{:?}: ledger events {:?}; case={}", op, out.events, ctx.cur_case),
+        );
+    }
     out.post = model.clone();
     let live = ledger_live();
     let want = model.len() as u64;
@@ -1703,6 +1710,13 @@ pub fn step<const N: usize, P: Pad>(
                 );
             } else {
                 ctx.count("allowed_leaks", live - want - base_live);
+            }
+            if matches!(op, Op::Drain(_, _, End::Drop)) && fkind.is_none() {
+                ctx.violation(
+                    "C09",
+                    sig(op, N, lay, "drained_element_not_destroyed"),
+                    format!("{:?}: {} drained element(s) neither handed out nor destroyed; case={}", op, live - want - base_live, ctx.cur_case),
+                );
             }
             // forget the leaked ones so later steps stay exact
             forget_leaked(model);
